@@ -19,4 +19,16 @@ LEVEL_TEXT = {
         "note": "Trusts the monitor DBI and the stub back end; real FBDNSDB/db.DB/db.Reload code runs unmodified apart from no-op yield hooks. The select tie in db.Reload is out of reach of the controlled scheduler.",
         "technique": "deterministic simulation: seeded scheduler + fault plan over an instrumented DBI, lifecycle monitor, rapid shrinking, exact replay",
     },
+    "C05": {
+        "text": "Seeded exploration of interleavings of in-flight queries with the steps of full/partial/failing reloads on the real handler and the real CDB and RocksDB drivers, generation-stamped data so that every response names the generation(s) it was computed from. Oracles: one stamp per response, a failed reload never becomes visible, a partial reload follows the path last switched to (decoy generation on the previous path), and the reload/query history is linearizable as a register (porcupine, event sequence numbers). Violations are minimised by rapid and replay exactly. Evidence, not proof.",
+        "design_ref": "§5.1",
+        "note": "Trusts the stamp extraction, the monitor wrapper and porcupine. Interleavings are at yield-point granularity; RocksDB background threads are unscheduled. Three genuine defects of the RocksDB in-place catch-up are listed in known_findings.jsonl and matched by signature (backend + cause), never by property alone.",
+        "technique": "deterministic simulation: seeded scheduler over real handler + real storage drivers, generation stamps, register linearizability (porcupine), fault plan for reloads, exact replay",
+    },
+    "C12": {
+        "text": "Same simulated server with the response cache on: every response is compared with a cache-off handler of the same backend kind on the generation it carries (sections as multisets, owner case folded, weighted answers by membership), and the history must be linearizable as a register so that an old-generation answer served after a completed reload is a stale read. Query mix is concentrated on few cache keys (locations, types, unusual classes whose key texts collide, EDNS/ECS, case), LRU size from 1, clock jumps across the 1000 s entry lifetime. Evidence, not proof.",
+        "design_ref": "§5.7",
+        "note": "Reference handlers run outside the bubble on immutable copies; torn responses and failed-reload visibility of the RocksDB catch-up are C05's statements and are not judged here. Two genuine defects were found and fixed (cache key collision; stale insertion after purge).",
+        "technique": "deterministic simulation: differential against a per-generation cache-off reference + register linearizability under seeded query/reload interleavings and clock jumps",
+    },
 }
